@@ -105,21 +105,47 @@ def _mk(policy):
     return {"greedy": D.MyopicNaiveGreedyDecision, "munkres": D.MunkresDecision, "allvisible": D.AllVisibleDecision}[policy]()
 
 
+def _real_engine(dec, T, S):
+    """A real CentralizedTaskingEngine (real constructor; database connection and executors are not needed for generateTasking) for T targets and S sensors."""
+    from resonaate.tasking.engine import centralized_engine as CE
+    from resonaate.tasking.engine import engine_base as EB
+
+    class _None:
+        def __init__(self, *a, **k):
+            pass
+
+    with shadow(EB, getDBConnection=lambda: _None()), shadow(CE, TaskingRewardExecutor=_None, TaskExecutionExecutor=_None):
+        return CE.CentralizedTaskingEngine(1, [200 + j for j in range(S)], [100 + i for i in range(T)], _mk_reward("sum", _metrics("sum"), 0.5), dec, None, True)
+
+
+def _via_engine(dec, R, V):
+    """The decision as the engine takes it: the real generateTasking() on an engine whose reward / visibility matrices are R, V."""
+    eng = _real_engine(dec, *np.shape(R))
+    eng.reward_matrix, eng.visibility_matrix = R, V
+    eng.generateTasking()
+    return eng.decision_matrix
+
+
 def replay_decision(d):
     R, V = np.array(d["R"], dtype=float), np.array(d["V"], dtype=bool)
     pol = d["policy"]
     if pol == "random":
         from resonaate.tasking.decisions.decisions import RandomDecision
 
-        out = RandomDecision(seed=d.get("seed", 1)).calculate(R, V)
+        dec = RandomDecision(seed=d.get("seed", 1))
     else:
-        out = _mk(pol).calculate(R, V)
+        dec = _mk(pol)
+    out = _via_engine(dec, R.copy(), V.copy()) if d.get("via") == "engine" else dec.calculate(R, V)
+    if np.shape(out) != R.shape:
+        return True, {"decision shape": list(np.shape(out))}
     T, S = R.shape
     bad = []
     if (out & ~V).any():
         bad.append("tasked an invisible pair")
     if pol in ("greedy", "munkres", "random") and (out.sum(axis=0) > 1).any():
         bad.append("sensor tasked to more than one target")
+    if pol == "random" and ((out.sum(axis=0) == 0) & V.any(axis=0)).any():
+        bad.append("random policy: a sensor with a visible target is not tasked")
     if pol == "munkres" and (out.sum(axis=1) > 1).any():
         bad.append("target tasked to more than one sensor")
     if pol == "allvisible" and (out != V).any():
@@ -134,6 +160,11 @@ def replay_decision(d):
                     bad.append(f"sensor {j} not given its highest-reward target")
             if V[i, j] and not out[:, j].any() and (R[:, j] == R[:, j].max()).sum() == 1:
                 bad.append(f"sensor {j}: best target visible but not tasked")
+    if pol == "munkres" and d.get("via") == "engine":
+        from resonaate.tasking.decisions.decisions import MunkresDecision
+
+        if (out != (MunkresDecision()._calculate(R, V) & V)).any():
+            bad.append("engine decision differs from the assignment masked by visibility")
     if pol == "munkres":
         k = min(T, S)
         best = max(sum(R[r, c] for r, c in zip(rows, cols)) for rows in itertools.permutations(range(T), k) for cols in itertools.combinations(range(S), k))
@@ -154,16 +185,17 @@ def replay_decision(d):
 # --------------------------------------------------------------------------------
 # obligations
 # --------------------------------------------------------------------------------
-def _inputs(T, S, policy):
+def _inputs(T, S, policy, via="policy"):
     def f(m):
-        return {"policy": policy, "R": [[mfloat(m, z3.Real(f"R_{i}_{j}")) for j in range(S)] for i in range(T)],
+        return {"policy": policy, "via": via, "R": [[mfloat(m, z3.Real(f"R_{i}_{j}")) for j in range(S)] for i in range(T)],
                 "V": [[bool(mval(m, z3.Bool(f"V_{i}_{j}"))) for j in range(S)] for i in range(T)]}
 
     return f
 
 
-def o_policy(rep, policy, T, S, pin=None):
-    """pin: a visibility pattern of the first row fixed for this obligation (the 2^S patterns are shared out over 2^S obligations)."""
+def o_policy(rep, policy, T, S, pin=None, via="policy"):
+    """pin: a visibility pattern of the first row fixed for this obligation (the 2^S patterns are shared out over 2^S obligations).
+    via = "engine": the decision is taken from the real CentralizedTaskingEngine.generateTasking() (decision_matrix) instead of the policy object."""
     from resonaate.tasking.decisions import decisions as D
 
     def run():
@@ -182,12 +214,12 @@ def o_policy(rep, policy, T, S, pin=None):
             dec._seed = ChoiceStub()
         with shadow(D, linear_sum_assignment=lsa_stub):
             pre = dec._calculate(R, V) if policy == "munkres" else None
-            out = dec.calculate(R, V)
+            out = dec.calculate(R, V) if via == "policy" else _via_engine(dec, R, V)
         return R, V, out, pre
 
     res = explore(run, max_paths=9000, max_depth=200)
     rep.note(f"{policy} {T}x{S}: paths={len(res)}")
-    inputs = _inputs(T, S, policy)
+    inputs = _inputs(T, S, policy, via)
     n = 0
     for r in res:
         if r.exc is not None:
@@ -229,7 +261,7 @@ def o_policy(rep, policy, T, S, pin=None):
             for j in range(S):
                 goals.append(z3.Implies(z3.Or(*[Vt[i][j] for i in range(T)]), _count([Dt[i][j] for i in range(T)]) == 1))
         n += 1
-        rep.prove(f"{policy}[{T}x{S}]#{n}", z3.And(*goals), r.constraints, inputs=inputs, replay=replay_decision if policy != "random" else None,
+        rep.prove(f"{policy}[{T}x{S}]#{n}", z3.And(*goals), r.constraints, inputs=inputs, replay=replay_decision if (policy != "random" or via == "engine") else None,
                   sample=f"{policy} {T}x{S}: decision within visibility, per-sensor/target uniqueness, optimality clauses")
     if n == 0:
         rep.error("reach", "no path")
@@ -406,6 +438,12 @@ def obligations(tier):
                 continue
             name = f"{pol}-{T}x{S}"
             obs.append(Ob(name, (lambda a: lambda rep: o_policy(rep, *a))((pol, T, S)), f"{pol} policy on all {T}x{S} matrices", 900))
+            REPLAYS[name] = replay_decision
+    for pol in ("greedy", "allvisible", "random", "munkres"):
+        for (T, S) in ((1, 1), (2, 2), (1, 2), (2, 1)) + (((3, 2), (2, 3)) if tier == "thorough" else ()):
+            name = f"engine-{pol}-{T}x{S}"
+            obs.append(Ob(name, (lambda a: lambda rep: o_policy(rep, *a, via="engine"))((pol, T, S)),
+                          f"the decision matrix the real CentralizedTaskingEngine.generateTasking() stores, {pol} policy, all {T}x{S} reward/visibility matrices", 900))
             REPLAYS[name] = replay_decision
     for pol, T, S in (("greedy", 3, 2), ("greedy", 2, 3), ("munkres", 2, 2), ("munkres", 3, 2)) + ((("munkres", 3, 3), ("greedy", 3, 3)) if tier == "thorough" else ()):
         obs.append(Ob(f"relabel-{pol}-{T}x{S}", (lambda a: lambda rep: o_relabel(rep, *a))((pol, T, S)), "relabelling targets/sensors relabels the decision", 900))
